@@ -101,6 +101,13 @@ def guardFromChunksSize (W k : Nat) (cs : List Nat) : Option G :=
     does stop the call at once, but its message is not one of the documented kinds.  `true` = the assertion fails. -/
 def qToFloatAssertFails (p : Nat) : Bool := p = 0
 
+/-- `Repr::to_float` (dashu_float.rs, since fix 43925c0): `let need_digits = precision.saturating_add(den_digits);` -/
+def qToFloatNeedDigits (p denDigits : Nat) : Nat := min (p + denDigits) usizeMax
+
+/-- `Repr::to_float`: `shift = 0` if `num_digits >= need_digits`, else `need_digits - num_digits` (truncated subtraction
+    gives 0 in the first case) -/
+def qToFloatShift (p numDigits denDigits : Nat) : Nat := qToFloatNeedDigits p denDigits - numDigits
+
 -- ------------------------------------------------------------------ folds
 
 /-- `Sum` / `Product` for FBig (float/src/iter.rs:12-28): `iter.fold(ZERO, add)` / `fold(ONE, mul)`; every step runs
